@@ -140,6 +140,11 @@ def expected(prog, lines, start=30 * 3600):
             cur["end"] = nxt["start"]
     flash = any(s["end"] is not None and not s["end_floored"] and 0 < s["end"] - s["start"] < 50000
                 for s in scr)
+    # an end that the offset floored at zero and that the gap rule then moved to the next start
+    # may leave a caption of less than 0.05 s: rejecting it or not are both accepted
+    for s in scr:
+        if s["end"] is not None and s["end_floored"] and 0 < s["end"] - s["start"] < 50000:
+            s["flash_maybe"] = True
     if scr and scr[-1]["end"] is None:
         scr[-1]["end"] = scr[-1]["start"] + 4 * 10 ** 6
         scr[-1]["default4s"] = True
@@ -161,7 +166,8 @@ def check_program(case, rec):
     try:
         cs = reader.read(doc, offset=case["offset"]) if case["offset"] else reader.read(doc)
     except CaptionReadTimingError as e:
-        require(flash, lambda: f"CaptionReadTimingError ({e}) although no caption is displayed for less than 0.05 s: {doc}")
+        require(flash or any(s.get("flash_maybe") for s in scr),
+                lambda: f"CaptionReadTimingError ({e}) although no caption is displayed for less than 0.05 s: {doc}")
         rec.label("flash-rejected")
         rec.nontrivial(True)
         return
